@@ -503,20 +503,25 @@ def injectFlushOrPushOutput (s : St) (io : Io) : Out (St × Io × Bool) :=
 def checkFlushComplete (s : St) : St :=
   if s.streamState = .flushRequested ∧ s.pending.length = 0 then { s with streamState := .processing, nextOut := .none } else s
 
+/-- how many bytes `take_output(size)` hands out (`size = 0`: everything) -/
+def takeCount (s : St) (size : Nat) : Nat := if size ≠ 0 then min size s.pending.length else s.pending.length
+
+/-- `take_output`: cursor, pending bytes and total after handing out `c` bytes -/
+def takeAdvance (s : St) (c : Nat) : St :=
+  { s with nextOut := nextOutIncrement s.nextOut c, totalOut := (s.totalOut + c) % two64, pending := s.pending.drop c }
+
+/-- `GetNextOut!`: `storage[off..]` / `tiny_buf[off..]` must be a valid slice start -/
+def takeSliceOk (s : St) : Bool :=
+  match s.nextOut with
+  | .dyn off => decide (off ≤ s.storageSize)
+  | .tiny off => decide (off ≤ 16)
+  | .none => true
+
 /-- `take_output(size)` → (state, bytes handed out) -/
 def takeOutput (s : St) (size : Nat) : Out (St × Bytes) :=
-  let consumed := if size ≠ 0 then min size s.pending.length else s.pending.length
-  -- GetNextOut!: `storage[off..]` / `tiny_buf[off..]`
-  let sliceOk : Bool := match s.nextOut with
-    | .dyn off => decide (off ≤ s.storageSize)
-    | .tiny off => decide (off ≤ 16)
-    | .none => true
-  if !sliceOk then .panic else
-  if consumed ≠ 0 then
-    let s := { s with nextOut := nextOutIncrement s.nextOut consumed, totalOut := (s.totalOut + consumed) % two64 }
-    let out := s.pending.take consumed
-    let s := { s with pending := s.pending.drop consumed }
-    .ok (checkFlushComplete s, out)
+  if !takeSliceOk s then .panic
+  else if takeCount s size ≠ 0 then
+    .ok (checkFlushComplete (takeAdvance s (takeCount s size)), s.pending.take (takeCount s size))
   else .ok (s, [])
 
 def isFinished (s : St) : Bool := s.streamState = .finished ∧ s.pending.length = 0
@@ -578,13 +583,16 @@ def processMetadataLoop (o : Oracle) : Nat → St → Io → Out (St × Io × Bo
     | .ok (s', io', .cont) => processMetadataLoop o fuel s' io'
     | .ok (s', io', .brk) => .ok (s', io', true)
 
+/-- `process_metadata` entered from PROCESSING opens a block of `available_in` bytes -/
+def mdEnter (s : St) (availIn : Nat) : St :=
+  if s.streamState = .processing then { s with remainingMetadata := availIn % two32, streamState := .metadataHead } else s
+
 /-- `process_metadata` -/
 def processMetadata (o : Oracle) (fuel : Nat) (s : St) (io : Io) : Out (St × Io × Bool) :=
-  if io.availIn > 16777216 then .ok (s, io, false) else
-  let s := if s.streamState = .processing then
-      { s with remainingMetadata := io.availIn % two32, streamState := .metadataHead } else s
-  if s.streamState ≠ .metadataHead ∧ s.streamState ≠ .metadataBody then .ok (s, io, false)
-  else processMetadataLoop o fuel s io
+  if io.availIn > 16777216 then .ok (s, io, false)
+  else if (mdEnter s io.availIn).streamState ≠ .metadataHead ∧ (mdEnter s io.availIn).streamState ≠ .metadataBody then
+    .ok (mdEnter s io.availIn, io, false)
+  else processMetadataLoop o fuel (mdEnter s io.availIn) io
 
 /-! ### the quality 0/1 one-shot-per-block path -/
 
@@ -603,6 +611,12 @@ def fastEncode (s : St) (io : Io) (ans : Ans) (req : Req) (blockSize : Nat) (inp
     ({ s with nEnc := s.nEnc + 1, oracleBad := (s.oracleBad || !ans.result), nextOut := .dyn 0, pending := outBytes,
               lastBytes := (carryOf w).1, lastBytesBits := (carryOf w).2, streamState := st }, io1)
 
+/-- staging buffer of a block: none when written in place, else `get_brotli_storage(max_out_size)` -/
+def fastStorage (s : St) (inplace : Bool) (maxOut : Nat) : St := if inplace then s else growStorage s maxOut
+
+/-- bytes available behind `storage` for that block -/
+def fastCap (s1 : St) (io : Io) (inplace : Bool) : Nat := if inplace then io.availOut else s1.storageSize
+
 /-- one iteration of the `compress_stream_fast` loop (`true` = continue, `false` = break) -/
 def fastStep (o : Oracle) (op : Nat) (s : St) (io : Io) : Out (St × Io × Bool) :=
   match injectFlushOrPushOutput s io with
@@ -618,8 +632,8 @@ def fastStep (o : Oracle) (op : Nat) (s : St) (io : Io) : Out (St × Io × Bool)
       if forceFlush ∧ blockSize = 0 then .ok ({ s with streamState := .flushRequested }, io, true)
       else
         let inplace := decide (maxOut ≤ io.availOut)
-        let s1 := if inplace then s else growStorage s maxOut
-        let cap := if inplace then io.availOut else s1.storageSize
+        let s1 := fastStorage s inplace maxOut
+        let cap := fastCap s1 io inplace
         let req : Req := { site := 2, lo := blockSize, hi := s.inputPos, isLast := isLast, forceFlush := forceFlush }
         let ans := o s.nEnc req
         if cap < 2 then .panic
